@@ -88,8 +88,11 @@ def path_to_sched(cd, g, path, hint=None):
     steps += ['0:0'] * n                       # spawn all workers
     started = set()
     pos = {}
-    for e in evs:
+    for idx, e in enumerate(evs):
         t = e['t']
+        # a model that has its own step for the bookkeeping step after a release (event kind pu) provides it itself
+        nxt = next((x for x in evs[idx + 1:] if x['t'] == t), None)
+        own_pu = nxt is not None and nxt['k'] == 'pu'
         if t not in started and t != 0:
             steps.append('%d:0' % t)          # its start step
             started.add(t)
@@ -97,7 +100,7 @@ def path_to_sched(cd, g, path, hint=None):
         if e['k'] == 'ret':
             pos[t] = pos.get(t, 0) + 1
         steps.append('%d:%d' % (t, a))
-        if e['k'] in ('munlock', 'sunlock') or (e['k'] in ('ast', 'arm') and cd.release_of(e)) or (e['k'] == 'cas' and e.get('u') == 1):
+        if not own_pu and (e['k'] in ('munlock', 'sunlock') or (e['k'] in ('ast', 'arm') and cd.release_of(e)) or (e['k'] == 'cas' and e.get('u') == 1)):
             steps.append('%d:0' % t)          # the bookkeeping step after a release-type operation (pu)
     return cd.path_header(s0) + ' | ' + ' '.join(steps), evs
 
